@@ -21,6 +21,7 @@ import json
 import os
 import random
 import re
+import time
 
 import vcommon as V
 
@@ -295,6 +296,11 @@ def stress_case(cid, rng, bank, die=False):
 def run(chk):
     quick = chk.quick()
     rng = random.Random(chk.seed * 7919 + 7)
+    phase, t_phase = {}, [time.time()]
+
+    def lap(name):
+        phase[name] = round(time.time() - t_phase[0], 1)
+        t_phase[0] = time.time()
     work = os.path.join(chk.tmp, "spec")
     V.copy_specs(os.path.join(V.SPEC, ID), work)
 
@@ -340,6 +346,7 @@ def run(chk):
             chk.inconclusive.append("vacuity guard %s: the broken design was not rejected by %s (%s)" % (c, expected[c], res.violation))
     chk.notes["vacuity_guards_rejected"] = [c for c, _ in mutants if results[("mut", c)][0].violation]
 
+    lap("tlc_design_mutants_generators")
     # ---- 2. cases
     cases = []
     cover_note = {}
@@ -403,8 +410,10 @@ def run(chk):
     chk.notes["generator_cover"] = cover_note
     by_id = {c["id"]: c for c in cases}
 
+    lap("walks")
     # ---- 3. the real code
     drv = V.build_driver("c07drv", chk.bindir)
+    lap("build_driver")
     gated = [c for c in cases if c["mode"] == "gated"]
     stress = [c for c in cases if c["mode"] == "stress"]
     hist, trace, events = [], [], []
@@ -426,8 +435,10 @@ def run(chk):
         events.extend(V.read_jsonl(outs[2]))
 
     drive("gated", gated, 6, 3000)
+    lap("driver_gated")
     # free-running cases one group at a time so that they really contend for the CPUs they get
     drive("stress", stress, 2, 3000)
+    lap("driver_stress")
 
     # ---- 4. hangs / panics recorded by the driver
     per_key = collections.Counter()
@@ -472,6 +483,7 @@ def run(chk):
     chunks = 4 if quick else 12
     obs = V.fold_traces(work, "TxnSer", "TxnSer.cfg", segs, timeout=3000, tracefile="hist.ndjson", chunks=chunks,
                         max_rounds=4, jvm=JVM if quick else None)
+    lap("txnser_fold")
     chk.states += obs["states"]
     chk.transitions += obs["transitions"]
     chk.traces += obs["accepted"]
@@ -513,6 +525,8 @@ def run(chk):
     tsegs = V.split_cases(trace)
     mt = V.fold_traces(work, "LocalSharedTrace", "LocalSharedTrace.cfg", tsegs, timeout=3000, chunks=chunks, max_rounds=4,
                        jvm=JVM if quick else None)
+    lap("m_level_fold")
+    chk.notes["phase_wall_s"] = phase
     chk.states += mt["states"]
     chk.transitions += mt["transitions"]
     chk.notes["m_level_traces_accepted"] = mt["accepted"]
